@@ -602,6 +602,11 @@ class Mp4Atom(ObjectWithFields):
             atom_type = f'UUID({uuid})'
         else:
             atom_type = str(atom_type, 'ascii')
+        if size < (src.tell() - position):
+            # a box can never be smaller than its own header. Accepting
+            # such a size would make load() step backwards or not at all
+            raise ValueError(
+                f'Invalid size {size} for box {atom_type} at position {position}')
         return {
             "atom_type": atom_type,
             "position": position,
